@@ -201,6 +201,18 @@ func (g *Gen) nonDefault(fd protoreflect.FieldDescriptor, variant int) protorefl
 	panic("nonDefault: unsupported kind " + fd.Kind().String())
 }
 
+// SetMember sets one member of a oneof (or any singular field) of m to a non-default value.
+func (g *Gen) SetMember(m protoreflect.Message, fd protoreflect.FieldDescriptor, variant int) {
+	if fd.Message() != nil {
+		v := m.Mutable(fd).Message()
+		if !SetWKT(v, variant) {
+			g.fill(v, variant, 2)
+		}
+		return
+	}
+	m.Set(fd, g.nonDefault(fd, variant))
+}
+
 // MapKey returns a map key value for index i.
 func MapKey(fd protoreflect.FieldDescriptor, i int) protoreflect.MapKey {
 	switch fd.Kind() {
